@@ -336,21 +336,23 @@ def replay_ce(ce):
     details = []
     bad = False
     exprs = [REALISE.get(ce['stub_outcome'], REALISE['?'])[0]] + literal_for(ce.get('stub_value')) + ['a = 1; a + 1', 'n = 0; n += 1; n', '(3, 4)', '1 +', 'k += 1; k', 'f(1)', 'k = k * 2; f(k)', 'f(2.5)',
-             'k += 1; "s"', 'k += 1; true', 'k += 1; (k, k)', 'k += 1;']
+             'k += 1; "s"', 'k += 1; true', 'k += 1; (k, k)', 'k += 1;', '"x" = 5; x + 1', '("y") = 2; y * 2', '5 = 3', '"k" += 1; k', '1; "z" = 1.5; z']
     cx = dict(vars=[('k', ('Int', 1))], funcs=[('f', 'log')])
     for prof in ('dev', 'release'):
         for expr in exprs:
-            base_entry = {'ctx': 'eval_with_context', 'ctx_mut': 'eval_with_context_mut', 'nocontext': 'eval'}[form]
-            e_base = base_entry if level == 'string' else ('node:' + base_entry if form != 'nocontext' else 'node0:eval')
+            # reference: the untyped evaluator with an explicit context; for the context-free forms an explicitly created empty HashMapContext
+            base_entry = {'ctx': 'eval_with_context', 'ctx_mut': 'eval_with_context_mut', 'nocontext': 'eval_with_context_mut'}[form]
+            e_base = base_entry if level == 'string' else 'node:' + base_entry
             bare = name.replace('Node::', '')
             e_wrap = bare if level == 'string' else (('node:' if form != 'nocontext' else 'node0:') + bare)
-            text = replay.case_text('b', e_base, expr, **cx) + replay.case_text('w', e_wrap, expr, **cx)
+            cxb = cx if form != 'nocontext' else {}
+            text = replay.case_text('b', e_base, expr, **cxb) + replay.case_text('w', e_wrap, expr, **cx)
             out = replay.run_cases(text, prof)
             b, w = out['b'], out['w']
             rb = b.get('result') or b.get('build')
             rw = w.get('result') or w.get('build')
             want = native_projection(typ, rb)
-            okk = same_native(rw, want) and b.get('vars') == w.get('vars') and b.get('log') == w.get('log')
+            okk = same_native(rw, want) and (form == 'nocontext' or (b.get('vars') == w.get('vars') and b.get('log') == w.get('log')))
             if not okk:
                 details.append('%s: `%s`: %s -> %s ; %s -> %s ; expected projection %s' % (prof, expr, e_base, rb, e_wrap, rw, want))
                 bad = True
